@@ -160,6 +160,38 @@ def analyse(repo, path):
         rows.append((path, nm, d['type'], cls, writers, d['fn'] or ''))
     return rows
 
+def dkrcht_shape(repo):
+    """st_dkrcht has the modelled shape (coq/C10/ModelRng.v dk_step), it is reached only through mvndst, and mvndst resets
+    DKRCHT_OLDS before integrating"""
+    src = strip(open(os.path.join(repo, 'src/Basic/MathFunc.cpp'), errors='replace').read())
+    m = re.search(r'static void st_dkrcht\s*\([^)]*\)\s*\{', src)
+    if not m: return False
+    d = 0; e = m.end() - 1
+    for j in range(e, len(src)):
+        if src[j] == '{': d += 1
+        elif src[j] == '}':
+            d -= 1
+            if d == 0: e = j; break
+    body = ''.join(src[m.end():e].split())
+    body = re.sub(r'staticintprime\[80\]=\{[\d,]*\};', '', body)
+    want = ('inti__1;doubled__1;staticdoublepsqt[80];staticinti,n[49],hisum;staticdoublern;--quasi;'
+            'if(*s!=DKRCHT_OLDS||*s<1){DKRCHT_OLDS=*s;n[0]=0;hisum=0;i__1=*s;for(i=1;i<=i__1;++i){rn=(double)prime[i-1];psqt[i-1]=sqrt(rn);}}'
+            'i__1=hisum;for(i=0;i<=i__1;++i){++n[i];if(n[i]<2){gotoL10;}n[i]=0;}++hisum;if(hisum>48){hisum=0;}n[hisum]=1;'
+            'L10:rn=0.;for(i=hisum;i>=0;--i){rn=n[i]+rn*2;}i__1=*s;for(i=1;i<=i__1;++i){d__1=rn*psqt[i-1];quasi[i]=fmod(d__1,c_b11);}')
+    if body != want: return False
+    # call chain: st_dkrcht <- st_dksmrc <- st_dkbvrc <- mvndst only, and the reset precedes the call in mvndst
+    if len(re.findall(r'\bst_dkrcht\s*\(', src)) != 2 or len(re.findall(r'\bst_dksmrc\s*\(', src)) < 2: return False
+    callers = set()
+    stack = brace_stack(src); fns = functions(src, stack)
+    for name, a, b in fns:
+        t = src[a:b]
+        if re.search(r'\bst_dkbvrc\s*\(', t) and name != 'st_dkbvrc': callers.add(name)
+        if re.search(r'\bst_dksmrc\s*\(', t) and name not in ('st_dksmrc', 'st_dkbvrc'): return False
+    if callers != {'mvndst'}: return False
+    mv = [src[a:b] for name, a, b in fns if name == 'mvndst'][0]
+    r = re.search(r'DKRCHT_OLDS\s*=\s*0\s*;', mv); c = re.search(r'\bst_dkbvrc\s*\(', mv)
+    return bool(r and c and r.start() < c.start() and len(re.findall(r'DKRCHT_OLDS', src)) == 4)
+
 def translate(repo):
     files = list(FILES)
     for d in DIRS: files += [os.path.relpath(p, repo) for p in sorted(glob.glob(os.path.join(repo, d, '*.cpp')))]
@@ -167,6 +199,14 @@ def translate(repo):
     for f in files:
         if not os.path.exists(os.path.join(repo, f)): raise TranslationError('%s not found' % f)
         rows += analyse(repo, f)
+    # the integration code of mvndst (translated Fortran, every local is static)
+    dk_ok = dkrcht_shape(repo)
+    for r in analyse(repo, 'src/Basic/MathFunc.cpp'):
+        f, nm, typ, cls, writers, fn = r
+        if cls == 'SConst': rows.append(r); continue
+        if fn == 'st_dkrcht' or nm == 'DKRCHT_OLDS': cls = 'SReset' if dk_ok else 'SUnknown'
+        elif cls == 'SUnknown': cls = 'SCarry'
+        rows.append((f, nm, typ, cls, writers, fn))
     seen = set(); out = []
     for r in rows:
         k = (r[0], r[1], r[5])
@@ -178,6 +218,9 @@ def translate(repo):
          'Definition statics : list (string * string * sclass) := [']
     L.append(';\n'.join('  ("%s", "%s%s", %s) (* %s ; written by: %s *)' % (f, n, ('@' + fn) if fn else '', c, t, ', '.join(w) or '-') for f, n, t, c, w, fn in out))
     L.append('].')
+    L.append('')
+    L.append('(* st_dkrcht has the shape modelled by dk_step, is reached through mvndst only, and mvndst sets DKRCHT_OLDS = 0 first *)')
+    L.append('Definition dkrcht_reset_at_entry : bool := %s.' % ('true' if dk_ok else 'false'))
     return '\n'.join(L) + '\n', [{'file': f, 'name': n, 'type': t, 'class': c, 'writers': w, 'fn': fn} for f, n, t, c, w, fn in out]
 
 if __name__ == '__main__':
